@@ -312,7 +312,11 @@ example : LzDict.PosInv { pos := 300, full := 4096, limit := 400, size := 4672, 
   `repeatNC`, `decodeSymbolC`, `doWriteC`, `lzmaCallC`, `decodeBufferC`, `dictWriteC`, `lzma2LoopC`, `Coder.codeC`,
   `lzmaDecodeC`, `lzma2DecodeC`, `rawDecodeC`): the same programs statement by statement, but every array access goes through
   the PARTIAL accessor `a[i]'h` / `a.set i v h` (Lean demands `h : i < a.size`), and where no run-time test supplies `h` the
-  variant stops with the distinguished outcome `oob` (`none` at call level). The dictionary operations additionally test,
+  variant stops with the distinguished outcome `oob` (`none` at call level). Every probability access additionally names the
+  C MEMBER ARRAY of `lzma_lzma1_decoder` it is meant for — `rcBitC (lo, ext) idx` tests `lo ≤ idx < lo + ext` besides
+  `idx < probs.size`; the members `M_IS_MATCH … M_LITERAL` are listed, with the sizes the compiled struct has, in
+  `member_table_matches_code` below — so an index that strays from `is_match[][]` into `is_rep[]` (inside the flat model
+  array, outside its own C array) is `oob` too (audit S-4). The dictionary operations additionally test,
   at every call, the precondition `distance < dict.full` and the C-LEVEL INDEX EXPRESSIONS of lz_decoder.h against the
   buffer size — `dict_get`: `getIndex distance < size`; `dict_get0`: `1 ≤ pos ∧ pos − 1 < size`; `dict_put`: `pos < size`;
   `dict_repeat`: `back + left ≤ size ∧ pos + left ≤ size`; `dict_write`: `pos + n ≤ size` — i.e. the expressions that
@@ -352,6 +356,37 @@ theorem symbol_decoder_accesses_in_bounds :
    fun p s h hw => (Lzma.doWrite_acc p s h hw).1,
    fun s h => ⟨(Lzma.lzmaCall_acc s h).1, (Lzma.lzmaCall_acc s h).2.1, (Lzma.lzmaCall_acc s h).2.2.1⟩⟩
 
+/-- The member table the checked decoder tests against IS the layout of the compiled `lzma_lzma1_decoder`: each member's extent
+    equals the element count the probe reads off the C struct (`sizeof(member) / sizeof(probability)`, Gen/C04.lean), the
+    members are adjacent in declaration order and tile the flat model array from 0 to `P_LITERAL`, and `literal` has room for
+    the largest `0x300 << (lc + lp)`. -/
+theorem member_table_matches_code :
+    Lzma.M_IS_MATCH = (Lzma.P_IS_MATCH, Gen.C04.nIsMatch) ∧ Lzma.M_IS_REP.2 = Gen.C04.nIsRep ∧ Lzma.M_IS_REP0.2 = Gen.C04.nIsRep
+    ∧ Lzma.M_IS_REP1.2 = Gen.C04.nIsRep ∧ Lzma.M_IS_REP2.2 = Gen.C04.nIsRep ∧ Lzma.M_IS_REP0_LONG.2 = Gen.C04.nIsRep0Long
+    ∧ Lzma.M_DIST_SLOT.2 = Gen.C04.nDistSlot ∧ Lzma.M_POS_SPECIAL.2 = Gen.C04.nPosSpecial ∧ Lzma.M_POS_ALIGN.2 = Gen.C04.nPosAlign
+    ∧ (∀ b, (Lzma.M_LEN_LOW b).2 = Gen.C04.nLenLow ∧ (Lzma.M_LEN_MID b).2 = Gen.C04.nLenMid ∧ (Lzma.M_LEN_HIGH b).2 = Gen.C04.nLenHigh
+          ∧ (Lzma.M_LEN_CHOICE b).2 = 1 ∧ (Lzma.M_LEN_CHOICE2 b).2 = 1)
+    ∧ Lzma.M_LITERAL.2 = Gen.C04.nLiteral
+    -- adjacency: each member starts where the previous one ends
+    ∧ Lzma.M_IS_MATCH.1 = 0 ∧ Lzma.M_IS_MATCH.1 + Lzma.M_IS_MATCH.2 = Lzma.M_IS_REP.1 ∧ Lzma.M_IS_REP.1 + Lzma.M_IS_REP.2 = Lzma.M_IS_REP0.1
+    ∧ Lzma.M_IS_REP0.1 + Lzma.M_IS_REP0.2 = Lzma.M_IS_REP1.1 ∧ Lzma.M_IS_REP1.1 + Lzma.M_IS_REP1.2 = Lzma.M_IS_REP2.1
+    ∧ Lzma.M_IS_REP2.1 + Lzma.M_IS_REP2.2 = Lzma.M_IS_REP0_LONG.1 ∧ Lzma.M_IS_REP0_LONG.1 + Lzma.M_IS_REP0_LONG.2 = Lzma.M_DIST_SLOT.1
+    ∧ Lzma.M_DIST_SLOT.1 + Lzma.M_DIST_SLOT.2 = Lzma.M_POS_SPECIAL.1 ∧ Lzma.M_POS_SPECIAL.1 + Lzma.M_POS_SPECIAL.2 = Lzma.M_POS_ALIGN.1
+    ∧ Lzma.M_POS_ALIGN.1 + Lzma.M_POS_ALIGN.2 = (Lzma.M_LEN_CHOICE Lzma.P_MATCH_LEN).1
+    ∧ (∀ b, (Lzma.M_LEN_CHOICE b).1 = b ∧ (Lzma.M_LEN_CHOICE b).1 + 1 = (Lzma.M_LEN_CHOICE2 b).1
+          ∧ (Lzma.M_LEN_CHOICE2 b).1 + 1 = (Lzma.M_LEN_LOW b).1 ∧ (Lzma.M_LEN_LOW b).1 + (Lzma.M_LEN_LOW b).2 = (Lzma.M_LEN_MID b).1
+          ∧ (Lzma.M_LEN_MID b).1 + (Lzma.M_LEN_MID b).2 = (Lzma.M_LEN_HIGH b).1
+          ∧ (Lzma.M_LEN_HIGH b).1 + (Lzma.M_LEN_HIGH b).2 = b + Lzma.LEN_CODER_SIZE)
+    ∧ Lzma.P_MATCH_LEN + Lzma.LEN_CODER_SIZE = Lzma.P_REP_LEN ∧ Lzma.P_REP_LEN + Lzma.LEN_CODER_SIZE = Lzma.M_LITERAL.1 := by
+  refine ⟨by decide, by decide, by decide, by decide, by decide, by decide, by decide, by decide, by decide, ?_, by decide,
+    by decide, by decide, by decide, by decide, by decide, by decide, by decide, by decide, by decide, by decide, ?_,
+    by decide, by decide⟩
+  · intro b; exact ⟨rfl, rfl, rfl, rfl, rfl⟩
+  · intro b
+    show b + 0 = b ∧ b + 0 + 1 = b + 1 ∧ b + 1 + 1 = b + 2 ∧ b + 2 + 16 * 8 = b + 130 ∧ b + 130 + 16 * 8 = b + 258
+      ∧ b + 258 + 256 = b + 514
+    omega
+
 /-- EVERY ARRAY ACCESS PERFORMED BY THE EXECUTABLE DECODER MODELS IS WITHIN THE ARRAY, ON EVERY INPUT.
     (1) `lzmaDecode` (LZMA1 as used by the .lzma / .lz / raw decoders) for every VALID lc/lp/pb — `lzma_decoder_init`,
         `lzma_lzma_lclppb_decode` and the .lz header decoder refuse the others before a decoder exists —, every dictionary
@@ -361,8 +396,9 @@ theorem symbol_decoder_accesses_in_bounds :
     (4) an LZMA2 coder after ANY sequence of earlier `code` calls (any output slicing, whatever they returned);
     (5) any coder that `lzma_raw_decoder_init` produced, after any sequence of calls none of which returned
         LZMA_STREAM_END (what `lzma_code` / `lzma_raw_buffer_decode` can make):
-    the checked function (partial accessors + C-level dictionary index tests, `none` = some access out of bounds) returns
-    `some` of exactly the executable function's result. -/
+    the checked function (partial accessors + per-MEMBER bounds of every probability access + C-level dictionary index
+    tests, `none` = some access out of bounds of the model array, of its own C member array, or of the dictionary buffer)
+    returns `some` of exactly the executable function's result. -/
 theorem decoder_accesses_in_bounds :
     (∀ (props : Lzma.Props), props.valid = true → ∀ (dictSize : Nat) (uncompSize : Option Nat) (allowEopm : Bool)
         (input presetDict : List UInt8) (outCap : Nat),
@@ -396,10 +432,20 @@ theorem lzma2_access_invariant (dictSize : Nat) (preset : List UInt8) (input : B
 /-- non-vacuity of the instrumentation: outside the invariant the checked functions DO report `oob` — a probability read
     from the empty array of a fresh LZMA2 coder (no properties byte seen yet), `dict_get` on an empty dictionary, and a
     symbol decode from that fresh state (where the executable model silently reads the default 0). -/
-example : (∃ s', Lzma.rcBitC 0 (Lzma2.initLzma2 4096 [] (ByteArray.mk #[])) = .error .oob s')
+example : (∃ s', Lzma.rcBitC Lzma.M_IS_MATCH 0 (Lzma2.initLzma2 4096 [] (ByteArray.mk #[])) = .error .oob s')
     ∧ Lzma.dictGetC (Lzma2.initLzma2 4096 [] (ByteArray.mk #[])) 0 = none
     ∧ (∃ s', Lzma.decodeSymbolC false (Lzma2.initLzma2 4096 [] (ByteArray.mk #[0, 0, 0, 0, 0, 0, 0, 0])) = .error .oob s') :=
   ⟨⟨_, rfl⟩, by decide, ⟨_, rfl⟩⟩
+
+/-- … and the member test is live: after `lzma_decoder_reset` the flat index 192 is accepted as `is_rep[0]` but reported when it
+    is meant as `is_match[12][0]` (inside the flat model array, outside the C member array) -/
+example : (match Lzma.rcBitC Lzma.M_IS_MATCH Lzma.P_IS_REP
+              ((Lzma2.initLzma2 4096 [] (ByteArray.mk #[])).resetLzma { lc := 0, lp := 0, pb := 0 }) with
+           | .error .oob _ => true | _ => false) = true
+    ∧ (match Lzma.rcBitC Lzma.M_IS_REP Lzma.P_IS_REP
+              ((Lzma2.initLzma2 4096 [] (ByteArray.mk #[])).resetLzma { lc := 0, lp := 0, pb := 0 }) with
+           | .ok _ _ => true | _ => false) = true := by
+  decide +kernel
 
 /-- … and the checked whole-input functions do run: the LZMA2 end marker alone; one uncompressed chunk -/
 example : Lzma2.lzma2DecodeC 4096 [0x00] = some { ret := .streamEnd, out := [], consumed := 1 }
@@ -643,14 +689,17 @@ example : Bcj.x86Loop false 0x1005#32 2#32 7 0x00123456#32 = Bcj.x86Loop false 0
 
   Several decoder / parser models recurse on an explicit `fuel : Nat` with an out-of-fuel branch `| 0, … => v₀`; Lean's
   acceptance of such a definition says nothing about whether `v₀` ever surfaces. For each of them the theorem below shows
-  that the result does not depend on the fuel from the amount the top-level caller supplies upward:
+  that the out-of-fuel branch is never REACHED once the fuel exceeds a stated measure of the arguments, in particular with
+  the amount the top-level caller supplies. Since `v₀` (`.progError` etc.) is also a legitimate result of other branches
+  (e.g. of the abstract payload decoder), "result ≠ v₀" — the form Props/C03 `fuel_never_exhausted` proves for the raw
+  LZMA1/LZMA2 decoders `symLoop` / `lzma2Loop` / `decodeBuffer` — is not available here; instead every loop `f` gets an
+  Option-valued instrumented twin `f?` (same code; `none` on the `0` branch, propagated) and the theorem is
 
-        measure(args) < fuel  →  ∀ k, f (fuel + k) args = f fuel args        and        f (F(args) + k) args = top-level def.
+        measure(args) < fuel  →  f? fuel args = some (f fuel args)           and        f? (F(args)) args = some (top-level def.)
 
-  The recursion depth on a given input being finite, this says exactly that the out-of-fuel branch never determines the
-  result — for ALL inputs and all abstract parameters. (The direct form "result ≠ v₀", which Props/C03
-  `fuel_never_exhausted` proves for the raw LZMA1/LZMA2 decoders `symLoop` / `lzma2Loop` / `decodeBuffer`, is not available
-  here: `v₀` = `.progError` etc. is also a legitimate result of other branches, e.g. of the abstract payload decoder.)
+  for ALL inputs and all abstract parameters. (Fuel INDEPENDENCE, `f (fuel + k) args = f fuel args`, is kept as the companion
+  theorems `decoder_fuel_independent` / `index_iterator_fuel_independent`; alone it would also be satisfied by a loop that
+  stutters and runs out of every fuel.)
   The measures: a Block consumes ≥ 4 bytes, a Stream that lets the loop continue ≥ 12 bytes, an .lz member ≥ 18 bytes, an
   Index Record ≥ 1 byte; `lzma_vli_size` shifts by 7 bits; the file-info decoder's `file_target_pos` strictly decreases
   from one Stream to the next (measure `fiMeasure`).
@@ -668,13 +717,86 @@ example : Bcj.x86Loop false 0x1005#32 2#32 7 0x00123456#32 = Bcj.x86Loop false 0
   Lemmas/C04Fuel.lean. The x86 BCJ loop is `x86_inner_loop_terminates` above; the check's stage P additionally refuses any
   `partial def` in the imported models. -/
 
-/-- THE FUEL OF THE CONTAINER, INDEX AND VLI DECODER MODELS IS NEVER EXHAUSTED, for every input:
+/-- THE OUT-OF-FUEL BRANCH OF THE CONTAINER, INDEX AND VLI DECODER MODELS IS NEVER REACHED, for every input (direct form, audit
+    S-3). For each fuelled loop `f`, `f?` is its instrumented twin (Lemmas/C04FuelReach*.lean): the same code with the `0`
+    branch returning `none` and `none` propagated through every recursive call, so `f? fuel x = none` iff evaluating
+    `f fuel x` reaches the out-of-fuel branch. With more fuel than the stated measure — in particular with the amount each
+    top-level caller supplies — the twin returns `some` of exactly the model's result:
+    `.xz` Blocks of a Stream (`blocksLoop`; fuel from `streamOne`), Streams of a file (`xzLoop`; `xzCall`), the concatenation
+    machine of C16 (`XzConcat.xzLoop`, for every one-Stream decoder that consumes something when it succeeds — which
+    `XzDecode.streamOne` does), `.lz` members (`lzipLoop`), the file-info Stream loop (`Index.streamLoop`; `fileInfo`),
+    `lzma_vli_size` of IndexSpec (`vliSizeGo`, 10 units).
+    TWO LOOPS DO REACH THEIR `0` BRANCH WITH THE FUEL THEIR CALLER SUPPLIES, and the statement says so: `Vli.vliSizeAux` (8 units:
+    for a 9-byte VLI the `0` branch is the base case that counts the last byte) and `Container.indexDecodeRecords` (`r1.length`
+    units: on an EMPTY remaining input with Records still owed the `0` branch gives the LZMA_DATA_ERROR that `vliDecode []`
+    gives one line later). For them: with ONE MORE unit the branch is never reached and the result is the model's. -/
+theorem decoder_fuel_never_exhausted :
+    (∀ (E : XzDecode.Env) (fl : XzDecode.Flags) (hdr : Container.StreamFlags) (fuel : Nat) (blocks : XzDecode.HashInfo)
+        (inp : List UInt8) (outCap : Nat), inp.length < fuel →
+        XzDecode.blocksLoop? E fl hdr fuel blocks inp outCap = some (XzDecode.blocksLoop E fl hdr fuel blocks inp outCap))
+    ∧ (∀ (E : XzDecode.Env) (fl : XzDecode.Flags) (hdr : Container.StreamFlags) (inp : List UInt8) (outCap : Nat),
+        XzDecode.blocksLoop? E fl hdr (inp.length + 1) [] (inp.drop Container.STREAM_HEADER_SIZE) outCap
+          = some (XzDecode.blocksLoop E fl hdr (inp.length + 1) [] (inp.drop Container.STREAM_HEADER_SIZE) outCap))
+    ∧ (∀ (E : XzDecode.Env) (fl : XzDecode.Flags) (fuel : Nat) (first : Bool) (inp : List UInt8) (outCap : Nat),
+        inp.length < fuel → XzDecode.xzLoop? E fl fuel first inp outCap = some (XzDecode.xzLoop E fl fuel first inp outCap))
+    ∧ (∀ (E : XzDecode.Env) (fl : XzDecode.Flags) (inp : List UInt8) (outCap : Nat),
+        XzDecode.xzLoop? E fl (inp.length + 1) true inp outCap = some (XzDecode.xzCall E fl inp outCap))
+    ∧ (∀ (X1 : XzConcat.One), XzConcat.Progress X1 → ∀ (cfg : XzConcat.Cfg) (inp : List UInt8),
+        XzConcat.xzLoop? X1 cfg (inp.length + 1) true inp = some (XzConcat.xzDecode X1 cfg inp))
+    ∧ (∀ (E : XzDecode.Env) (fl : XzDecode.Flags) (first : Bool) (outCap : Nat),
+        XzConcat.Progress (fun inp => XzDecode.streamOne E fl first inp outCap))
+    ∧ (∀ (P : Alone.Payload) (cfg : Lzip.Cfg) (inp : List UInt8),
+        Lzip.lzipLoop? P cfg (inp.length + 1) true inp = some (Lzip.lzipDecode P cfg inp))
+    ∧ (∀ (fuel count : Nat) (a : Container.IndexAcc) (b : List UInt8), b.length < fuel →
+        Container.indexDecodeRecords? fuel count a b = some (Container.indexDecodeRecords fuel count a b))
+    ∧ (∀ (count : Nat) (a : Container.IndexAcc) (r1 : List UInt8),
+        Container.indexDecodeRecords? (r1.length + 1) count a r1 = some (Container.indexDecodeRecords r1.length count a r1))
+    ∧ (∀ v : Nat, ¬ v > Vli.VLI_MAX → Vli.vliSizeAux? 9 v = some (Vli.vliSize v))
+    ∧ (∀ v : Nat, ¬ v > Index.VLI_MAX → Index.vliSizeGo? 10 v 0 = some (Index.vliSize v))
+    ∧ (∀ (file : Array UInt8) (ml fc fuel : Nat) (ns : Bool) (st : Index.FI), Index.fiMeasure ns st < fuel →
+        Index.streamLoop? file ml fc fuel ns st = some (Index.streamLoop file ml fc fuel ns st))
+    ∧ (∀ (file : Array UInt8) (ml fc : Nat),
+        Index.streamLoop? file ml fc (file.size + 2) true
+            { target := file.size, tempStart := 0, tempPos := 0, tempSize := 0, streamPadding := 0, combined := none }
+          = some (Index.streamLoop file ml fc (file.size + 2) true
+            { target := file.size, tempStart := 0, tempPos := 0, tempSize := 0, streamPadding := 0, combined := none })) :=
+  ⟨XzDecode.blocksLoop_reach, XzDecode.streamOne_reach, XzDecode.xzLoop_reach, XzDecode.xzCall_reach,
+   fun X1 hX cfg inp => XzConcat.xzDecode_reach X1 hX cfg inp, XzConcat.streamOne_progress,
+   Lzip.lzipDecode_reach, Container.indexDecodeRecords_reach, Container.indexDecode_reach, Vli.vliSize_reach,
+   Index.vliSize_reach, fun file ml fc => Index.streamLoop_reach file ml fc, Index.fileInfo_reach⟩
+
+/-- … and neither is that of the fuelled loops of the Index iterator / locate models (property C13's models; `Inv` is C13's
+    well-formedness invariant of `lzma_index`, preserved by every operation: Props/C13), with the fuel their callers supply:
+    the listing loop (`iterAllGo`, `iterFuel i` units: every unit spent yields a list item and a listing has fewer items than
+    `iterFuel i`), the Stream search of the iterator in both models (`nextStreamFrom`, one unit per Stream + 1), the binary
+    search of `lzma_index_iter_locate` (`bsearch`, the interval shrinks). -/
+theorem index_iterator_fuel_never_exhausted :
+    (∀ {i : Index.Impl.Index}, Index.Impl.Inv i → ∀ (mode : Nat),
+        Index.Impl.iterAllGo? i mode (Index.Impl.iterFuel i) Index.Impl.Iter.rewind = some (Index.Impl.iterAll i mode))
+    ∧ (∀ (i : Index.Impl.Index) (mode fuel : Nat) (it : Index.Impl.Iter), (Index.Impl.iterAllGo i mode fuel it).length < fuel →
+        Index.Impl.iterAllGo? i mode fuel it = some (Index.Impl.iterAllGo i mode fuel it))
+    ∧ (∀ {i : Index.Impl.Index}, Index.Impl.Inv i → ∀ (mode si : Nat),
+        Index.Impl.nextStreamFrom? i mode (i.streams.count + 1) si = some (Index.Impl.nextStreamFrom i mode (i.streams.count + 1) si))
+    ∧ (∀ (g : Index.Impl.Group) (t fuel left right : Nat), right - left < fuel →
+        Index.Impl.bsearch? g t fuel left right = some (Index.Impl.bsearch g t fuel left right))
+    ∧ (∀ (g : Index.Impl.Group) (t : Nat),
+        Index.Impl.bsearch? g t (g.records.size + 1) 0 g.last = some (Index.Impl.bsearch g t (g.records.size + 1) 0 g.last))
+    ∧ (∀ (i : Index.Index) (mode fuel si : Nat), i.length - si < fuel →
+        Index.Spec.nextStreamFrom? i mode fuel si = some (Index.Spec.nextStreamFrom i mode fuel si))
+    ∧ (∀ (i : Index.Index) (mode si : Nat),
+        Index.Spec.nextStreamFrom? i mode (i.length + 1) si = some (Index.Spec.nextStreamFrom i mode (i.length + 1) si)) :=
+  ⟨fun hi mode => Index.Impl.iterAll_reach hi mode, Index.Impl.iterAllGo_reach_of_length,
+   fun hi mode si => Index.Impl.nextStreamFrom_reach hi mode si, Index.Impl.bsearch_reach, Index.Impl.iterLocate_reach,
+   Index.Spec.nextStreamFrom_reach, Index.Spec.advance_reach⟩
+
+/-- COMPANION (fuel independence; by itself it would also hold for a loop that stutters — audit S-3 — which is why
+    `decoder_fuel_never_exhausted` above states the direct form). From the supplied amount upward the result does not depend on the fuel:
     `.xz` — Blocks of a Stream (`blocksLoop`, fuel from `streamOne`), Streams of a file (`xzLoop`, fuel from `xzCall`),
     hence `xzCall` / `xzDecode` / `xzBufferDecode`; the concatenation machine of C16 (`XzConcat.xzLoop`, for every
     one-Stream decoder that consumes something when it succeeds — which `XzDecode.streamOne` does); `.lz` members
     (`lzipLoop`); the Records loop of the Index decoder (`Container.indexDecodeRecords`); `lzma_vli_size` in both models;
     the Stream loop of the file-info decoder (`Index.streamLoop`, fuel from `Index.fileInfo`). -/
-theorem decoder_fuel_never_exhausted :
+theorem decoder_fuel_independent :
     (∀ (E : XzDecode.Env) (fl : XzDecode.Flags) (hdr : Container.StreamFlags) (fuel : Nat) (blocks : XzDecode.HashInfo)
         (inp : List UInt8) (outCap : Nat), inp.length < fuel →
         ∀ k, XzDecode.blocksLoop E fl hdr (fuel + k) blocks inp outCap = XzDecode.blocksLoop E fl hdr fuel blocks inp outCap)
@@ -702,10 +824,10 @@ theorem decoder_fuel_never_exhausted :
    Lzip.lzipDecode_fuel, Container.indexDecode_supplies_enough, Vli.vliSize_fuel, Index.vliSize_fuel,
    Index.fileInfo_supplies_enough⟩
 
-/-- … and so do the fuelled loops of the Index iterator / locate models (property C13's models; `Inv` is C13's
+/-- COMPANION (fuel independence) for the fuelled loops of the Index iterator / locate models (property C13's models; `Inv` is C13's
     well-formedness invariant of `lzma_index`, preserved by every operation: Props/C13): the listing loop with
     `iterFuel`, the Stream search, the binary search of `lzma_index_iter_locate`. -/
-theorem index_iterator_fuel_never_exhausted :
+theorem index_iterator_fuel_independent :
     (∀ {i : Index.Impl.Index}, Index.Impl.Inv i → ∀ (mode k : Nat),
         Index.Impl.iterAllGo i mode (Index.Impl.iterFuel i + k) Index.Impl.Iter.rewind = Index.Impl.iterAll i mode)
     ∧ (∀ {i : Index.Impl.Index}, Index.Impl.Inv i → ∀ (mode si k : Nat),
@@ -728,6 +850,15 @@ def toyEnv : XzDecode.Env :=
 example : (XzDecode.xzLoop toyEnv { concatenated := true } 1 true (emptyXz ++ emptyXz).toList 0).ret = .progError
     ∧ (XzDecode.xzCall toyEnv { concatenated := true } (emptyXz ++ emptyXz).toList 0).ret = .streamEnd
     ∧ (XzDecode.xzCall toyEnv { concatenated := true } (emptyXz ++ emptyXz).toList 0).consumed = 64 := by
+  decide +kernel
+
+/-- … and the instrumented twins DO report a reached out-of-fuel branch: `xzLoop?` with one unit on two Streams; `vliSizeAux?`
+    with the 8 units `vliSize` supplies on a 9-byte VLI (base case of the model), but not with 9; `indexDecodeRecords?` with
+    `r1.length = 0` units on an empty input that still owes a Record, but not with one more -/
+example : (XzDecode.xzLoop? toyEnv { concatenated := true } 1 true (emptyXz ++ emptyXz).toList 0).isNone = true
+    ∧ (XzDecode.xzLoop? toyEnv { concatenated := true } 65 true (emptyXz ++ emptyXz).toList 0).isSome = true
+    ∧ Vli.vliSizeAux? 8 (2 ^ 62) = none ∧ Vli.vliSizeAux? 9 (2 ^ 62) = some 9 ∧ Vli.vliSize (2 ^ 62) = 9
+    ∧ (Container.indexDecodeRecords? 0 1 {} []).isNone = true ∧ (Container.indexDecodeRecords? 1 1 {} []).isSome = true := by
   decide +kernel
 
 end XzVerif.C04
